@@ -106,3 +106,9 @@ End WithLimit.
 Example ex_run : run 256 0 0 [Subscribe; Subscribe; Unsubscribe (Some 3%Z); Unsubscribe None; UnsubEvent; Unsubscribe (Some 0%Z)]
   = (0, 0, [OOk; OOk; ONoSubscription; OOk; OEvent; OInvalidParams]).
 Proof. reflexivity. Qed.
+
+(* C06: a revocation (denied re-access, delete) removes all direct subscriptions with exactly one unsubscribe
+   event, and none when there is no direct subscription *)
+Theorem revocation_removes_all : forall limit d,
+  step limit d UnsubEvent = match d with O => (O, ONothing) | _ => (O, OEvent) end.
+Proof. intros limit [|d]; reflexivity. Qed.
